@@ -32,7 +32,7 @@ def handle : List String → Option String
   | ["crowd", pops, ts, cl] => do
     let pop ← (words pops).mapM indv?; let target ← ts.toNat?
     let bits ← nats? cl
-    match detCrowding (fun i => bits.getD i 0 == 1) pop target with
+    match detCrowdingCall (fun i => bits.getD i 0 == 1) pop target with
     | none => some "err"
     | some out => some s!"ok {ids out}"
   | _ => none
